@@ -44,6 +44,21 @@ CHECKS = {
              "without generation counters) must be identical to the one taken before the call. No expected error codes are used.",
         note="Breakage menu: bad entry at first/middle/last position (10 kinds), every entry dropped, oversize template, RO/public/SO session, bad mechanism "
              "parameters, every truncation/byte corruption of wrapped blobs, stale/foreign handles; file store; fs-fault injection is not part of this check yet."),
+    "C04": dict(
+        category="model_checking", design_ref="DESIGN.md 3/C04",
+        technique="explicit-state BFS over PIN-change histories on the real library with an exhaustive if-and-only-if login probe over a constructed candidate alphabet in every changed state (same instance, after re-initialisation, new process)",
+        text="Histories of C_InitPIN / C_SetPIN (three session kinds, right/wrong/other old PIN, 9-12 new PINs incl. boundary lengths, NUL, high bytes, "
+             "prefix/extension of the old one) and token re-initialisation are enumerated; after every accepted change C_Login is probed for both user types "
+             "with ~130 candidates (current, previous, other user's, prefixes, extensions, one-bit neighbours, boundary strings) and must succeed iff the "
+             "candidate is the model's current PIN; private objects must read back unchanged.",
+        note="PIN values outside the constructed alphabet are not covered (the space is not enumerable); depth 2 (quick) / 3 (thorough)."),
+    "C14": dict(
+        category="model_checking", design_ref="DESIGN.md 3/C14",
+        technique="explicit-state BFS over token init / re-init / PIN / object / held-session / restart histories on three tokens, complete per-token observation after every action compared with a per-token reference model",
+        text="Every history up to depth 4 (quick) / 5 (thorough) is executed; after each action every token's label, serial, flags, PIN acceptance (both "
+             "values of both user types), object set with attribute digests, held sessions and the number of uninitialised slots are compared with the "
+             "model, so cross-token interference, lost or surviving state after re-initialisation and slot changes across restarts are all visible.",
+        note="File store; softhsm2-util actions and the SQLite store are not in this tier yet; two PIN values per user."),
 }
 
 NOT_YET = "check under construction in this session; not claimed yet (DESIGN.md Appendix D gives the build order)"
